@@ -70,6 +70,7 @@ Section Model.
   | OBackQuery (b : Z)
   | OBackScript (b : Z) (acts : list act)  (* pipelined: nothing is awaited between the steps *)
   | OForwardKeepN (sid b : Z)              (* the same through a forwarded NOTIFICATION (no answer) *)
+  | OFrontHook (sid : Z)                   (* a front-local handler registers a close callback for its connection that PANICS when it runs *)
   | OForwardKeep (sid b : Z).              (* a forwarded request of sid whose handler ANSWERS FIRST and then
                                               keeps ctx.Session (the BackSession built from the envelope) as
                                               handle b, to go on using it *)
@@ -261,6 +262,7 @@ Section Model.
             end
         | None => (s, BIgnored)
         end
+    | OFrontHook sid => match live s sid with Some _ => (s, BUnit) | None => (s, BIgnored) end
     | OForwardKeepN sid b =>
         match live s sid with
         | Some m =>
@@ -312,6 +314,7 @@ Arguments OBackQuery {val} b.
 Arguments OBackScript {val} b acts.
 Arguments OForwardKeep {val} sid b.
 Arguments OForwardKeepN {val} sid b.
+Arguments OFrontHook {val} sid.
 Arguments AKick {val}.
 Arguments ASet {val} k v.
 Arguments APush {val}.
